@@ -239,7 +239,17 @@ func (g *sim) runOne(id string) {
 		args = append(args, fmt.Sprintf("inject=%s:%d", kind, g.r.Intn(4)))
 		g.tags["inject-"+kind] = true
 	}
-	if g.p.Inter && strings.HasPrefix(id, "cfg:") && g.r.Chance(1, 3) {
+	injected := false
+	for _, a := range args {
+		if strings.HasPrefix(a, "inject=") {
+			injected = true
+		}
+	}
+	// (an injected write failure and a pre-emption are not combined on one invocation: where the
+	// invocation ends at the failed write, "after its k-th effect" names no point the twin and the
+	// decorators agree on - a disagreement of the harness with itself, met at seed 3)
+	if injected {
+	} else if g.p.Inter && strings.HasPrefix(id, "cfg:") && g.r.Chance(1, 3) {
 		// the device restarts empty, comes back over a new connection and a new master is elected while
 		// the configuration reconciler is between two requests of a re-synchronisation, or between the last
 		// one and its status write
